@@ -675,3 +675,69 @@ pub fn sim_link(honest: &[u8], digest_size: usize, element_bytes: usize, mix: u6
     }
     (bytes, words)
 }
+
+// IMAGE OF A STAND-ALONE FRI PROOF
+// ================================================================================================
+
+#[derive(Clone, Debug, PartialEq)]
+pub struct FriImg {
+    pub num_layers: u8,
+    pub layers: Vec<LayerImg>,
+    pub remainder_len: u16,
+    pub remainder: Vec<u8>,
+    pub partitions: u8,
+}
+
+impl FriImg {
+    pub fn parse(bytes: &[u8], digest_size: usize) -> Option<FriImg> {
+        let mut r = Rd { b: bytes, p: 0 };
+        let num_layers = r.u8()?;
+        let mut layers = Vec::new();
+        for _ in 0..num_layers {
+            let values_len = r.u32()?;
+            let values = r.take(values_len as usize)?.to_vec();
+            let paths_len = r.u32()?;
+            let pbytes = r.take(paths_len as usize)?;
+            let mut pr = Rd { b: pbytes, p: 0 };
+            let paths = merkle_parse(&mut pr, digest_size)?;
+            if pr.p != pbytes.len() {
+                return None;
+            }
+            layers.push(LayerImg { values_len, values, paths_len, paths });
+        }
+        let remainder_len = r.u16()?;
+        let remainder = r.take(remainder_len as usize)?.to_vec();
+        let partitions = r.u8()?;
+        if r.p != bytes.len() {
+            return None;
+        }
+        Some(FriImg { num_layers, layers, remainder_len, remainder, partitions })
+    }
+
+    pub fn encode(&self) -> Vec<u8> {
+        let mut o = vec![self.num_layers];
+        for l in self.layers.iter() {
+            o.extend_from_slice(&l.values_len.to_le_bytes());
+            o.extend_from_slice(&l.values);
+            o.extend_from_slice(&l.paths_len.to_le_bytes());
+            merkle_encode(&l.paths, &mut o);
+        }
+        o.extend_from_slice(&self.remainder_len.to_le_bytes());
+        o.extend_from_slice(&self.remainder);
+        o.push(self.partitions);
+        o
+    }
+
+    pub fn fix_lengths(&mut self) {
+        self.num_layers = self.layers.len() as u8;
+        for l in self.layers.iter_mut() {
+            l.paths.nvec = l.paths.vecs.len() as u64;
+            for v in l.paths.vecs.iter_mut() {
+                v.0 = v.1.len() as u64;
+            }
+            l.values_len = l.values.len() as u32;
+            l.paths_len = merkle_len(&l.paths) as u32;
+        }
+        self.remainder_len = self.remainder.len() as u16;
+    }
+}
